@@ -302,4 +302,49 @@ example : denote ex1 = [2, 19, 4, 37] := by decide
 example : eval ex1 = .ok [2, 19, 4, 37] := eval_eq_denote ex1
 example : Repr (sg := .p Int Int) 1 (PFrom 1 11) [(1, 11)] := pair_next 1 11
 
+/-! ### algebraic laws of the pair combinators, as observed through the documented consumption loop
+(corollaries of `eval_eq_denote`; they hold for plain and for pair sequences alike) -/
+
+/-- the value map of pair sequences fuses, keys passed to both functions untouched -/
+theorem pmap_pmap_fuses {κ α β γ : Type} (e : Ex (.p κ α)) (f : κ → α → β) (g : κ → β → γ) :
+    eval (.pmap (.pmap e f) g) = eval (.pmap e (fun k a => g k (f k a))) := by
+  simp [eval_eq_denote, denote, List.map_map, Function.comp_def]
+
+theorem filter_filter_fuses {sg : Sig} (e : Ex sg) (p q : Elem sg → Bool) :
+    eval (.filter (.filter e p) q) = eval (.filter e (fun a => p a && q a)) := by
+  simp [eval_eq_denote, denote, List.filter_filter, Bool.and_comm]
+
+theorem plus_assoc {sg : Sig} (a b c : Ex sg) :
+    eval (.plus (.plus a b) c) = eval (.plus a (.plus b c)) := by
+  simp [eval_eq_denote, denote, List.append_assoc]
+
+theorem pmap_plus {κ α β : Type} (a b : Ex (.p κ α)) (f : κ → α → β) :
+    eval (.pmap (.plus a b) f) = eval (.plus (.pmap a f) (.pmap b f)) := by
+  simp [eval_eq_denote, denote]
+
+theorem filter_plus {sg : Sig} (a b : Ex sg) (p : Elem sg → Bool) :
+    eval (.filter (.plus a b) p) = eval (.plus (.filter a p) (.filter b p)) := by
+  simp [eval_eq_denote, denote]
+
+theorem join_plus {sa sb : Sig} (a b : Ex sa) (k : Elem sa → Ex sb) :
+    eval (.join (.plus a b) k) = eval (.plus (.join a k) (.join b k)) := by
+  simp [eval_eq_denote, denote]
+
+/-- the monad laws, for `From` and for the pair `From` -/
+theorem join_pfrom_left {κ ν : Type} {sb : Sig} (k : κ) (v : ν) (h : Elem (.p κ ν) → Ex sb) :
+    eval (.join (.pfrom k v) h) = eval (h (k, v)) := by
+  simp [eval_eq_denote, denote]
+
+theorem join_pfrom_right {κ ν : Type} (e : Ex (.p κ ν)) :
+    eval (.join e (fun kv : Elem (.p κ ν) => (.pfrom kv.1 kv.2 : Ex (.p κ ν)))) = eval e := by
+  simp [eval_eq_denote, denote]
+
+theorem join_assoc {sa sb sc : Sig} (e : Ex sa) (k : Elem sa → Ex sb) (h : Elem sb → Ex sc) :
+    eval (.join (.join e k) h) = eval (.join e (fun a => .join (k a) h)) := by
+  simp [eval_eq_denote, denote, List.flatMap_assoc]
+
+theorem takeWhile_plus_dropWhile {sg : Sig} (e : Ex sg) (p : Elem sg → Bool) :
+    eval (.plus (.takeWhile e p) (.dropWhile e p)) = eval e := by
+  simp [eval_eq_denote, denote, List.takeWhile_append_dropWhile]
+
 end Golem.Props.C15
